@@ -158,3 +158,17 @@ def influences_result(a: ast.AST) -> bool:
     return True
 
 
+
+
+def param_attrs(cls, pname: str) -> set:
+    """attribute names under which ``cls.__init__`` stores its parameter ``pname`` (plus the name itself)"""
+    out = {pname}
+    init = cls.methods.get("__init__") if cls is not None and hasattr(cls, "methods") else None
+    if init is None or pname not in init.params + init.kwonly:
+        return out
+    for n in ast.walk(init.node):
+        if isinstance(n, ast.Assign) and isinstance(n.value, ast.Name) and n.value.id == pname:
+            for t in n.targets:
+                if isinstance(t, ast.Attribute) and isinstance(t.value, ast.Name) and t.value.id == init.params[0]:
+                    out.add(t.attr)
+    return out
